@@ -195,6 +195,15 @@ func RunCheckToolCase(cs map[string]any, id int, seed int64, tool, tmp string) R
 	qpath := filepath.Join(dir, "quote")
 	os.WriteFile(qpath, qbytes, 0o600)
 	args := []string{"-in", qpath, "-inform", str("inform"), "-timeout=400ms", "-max_retry_delay=60ms"}
+	present, _ := cs["present"].(string)
+	switch present {
+	case "quiet":
+		args = append(args, "-quiet")
+	case "verbose":
+		args = append(args, "-verbosity=2")
+	case "stdin": // the quote arrives on standard input
+		args[1] = "-"
+	}
 
 	// ---- policy field values
 	b := msg.TdQuoteBody
@@ -416,6 +425,9 @@ func RunCheckToolCase(cs map[string]any, id int, seed int64, tool, tmp string) R
 	cmd.Env = env
 	var stderr, stdout bytes.Buffer
 	cmd.Stderr, cmd.Stdout = &stderr, &stdout
+	if present == "stdin" {
+		cmd.Stdin = bytes.NewReader(qbytes)
+	}
 	done := make(chan error, 1)
 	if err := cmd.Start(); err != nil {
 		panic(err)
@@ -441,7 +453,7 @@ func RunCheckToolCase(cs map[string]any, id int, seed int64, tool, tmp string) R
 	if len(tail) > 300 {
 		tail = tail[len(tail)-300:]
 	}
-	return Result{ID: id, Events: []Event{{"ev": "Call", "case": id, "input": cs, "args": strings.Join(args[2:], " ")}, {"ev": "Return", "exit": exit, "crash": crash, "stderr": tail, "result": fmt.Sprintf("exit%d", exit)}}}
+	return Result{ID: id, Events: []Event{{"ev": "Call", "case": id, "input": cs, "args": strings.Join(args[2:], " ")}, {"ev": "Return", "exit": exit, "crash": crash, "silent": len(se) == 0, "fatalLine": strings.Contains(stderr.String(), "FATAL:"), "stderrEmpty": stderr.Len() == 0, "stderr": tail, "result": fmt.Sprintf("exit%d", exit)}}}
 }
 
 type failingGetter struct {
